@@ -56,29 +56,34 @@ def loadPages (fx : Fix) (r : Recv) (site : Site) (k : ErrKind) : List Nat → M
   | [] => pure ()
   | p :: ps => do loadPage fx r site k p; loadPages fx r site k ps
 
+/-- the 128K branch of `sna::load`: secondary header, `write_7ffd`, three head banks, tail banks -/
+def sna128 (fx : Fix) (r : Recv) : M Unit := do
+  let _ ← seekM (.start SNA_48K_SIZE)
+  let t ← readExactM 4
+  let a ← getAsset
+  let r' := r.write7ffd (a.u8 (t + 2))
+  let _ ← seekM (.start 27)
+  let pb := r'.bank
+  loadPages fx r' .snaPage .machineNotSupported [5, 2, pb]
+  let _ ← seekM (.start 49183)
+  loadPages fx r' .snaPage .machineNotSupported ([0, 1, 3, 4, 6, 7].filter (· ≠ pb))
+
+/-- the 48K branch: three pages, then `pop_pc_from_stack` -/
+def sna48 (fx : Fix) (r : Recv) : M Unit := do
+  loadPages fx r .snaPage .machineNotSupported [0, 1, 2]
+  tick 2
+
 /-- `snapshot::sna::load` -/
 def snaLoad (fx : Fix) (r : Recv) : M Unit := do
   let size ← seekM (.fromEnd 0)
   let _ ← seekM (.start 0)
   let is128 := decide (SNA_48K_SIZE < size)
-  if !is128 && decide (size < SNA_48K_SIZE) then failM (.io .unexpectedEof)
+  guardM (!is128 && decide (size < SNA_48K_SIZE)) (.io .unexpectedEof)
   let h ← readExactM 27
   let a ← getAsset
   -- emulator.cpu.set_im(header[25] & 3)
   check fx .snaIm (decide (a.u8 (h + 25) % 4 = 3)) .invalidSna
-  if is128 then do
-    let _ ← seekM (.start SNA_48K_SIZE)
-    let t ← readExactM 4
-    -- repaired code: a 128K snapshot is refused by the 48K machine before any bank is touched
-    let r' := r.write7ffd (a.u8 (t + 2))
-    let _ ← seekM (.start 27)
-    let pb := r'.bank
-    loadPages fx r' .snaPage .machineNotSupported [5, 2, pb]
-    let _ ← seekM (.start 49183)
-    loadPages fx r' .snaPage .machineNotSupported ([0, 1, 3, 4, 6, 7].filter (· ≠ pb))
-  else do
-    loadPages fx r .snaPage .machineNotSupported [0, 1, 2]
-    tick 2          -- pop_pc_from_stack
+  (if is128 then sna128 fx r else sna48 fx r)
   tick              -- refresh_memory_dependent_devices
 
 /-! ### SZX -/
@@ -140,7 +145,7 @@ structure SzxEnv where
 /-- `process_crtr_block` -/
 def szxCrtr (fx : Fix) (b size : Nat) : M Unit := do
   -- the repaired code checks the whole length first
-  if fx .szxCrtrShort && decide (size < 37) then failM .invalidSzx
+  guardM (fx .szxCrtrShort && decide (size < 37)) .invalidSzx
   check fx .szxCrtrShort (decide (size < 33)) .invalidSzx
   let a ← getAsset
   check fx .szxCrtrUtf8 (!utf8Valid (a.window b 33)) .invalidSzx
@@ -148,7 +153,7 @@ def szxCrtr (fx : Fix) (b size : Nat) : M Unit := do
 
 /-- `process_z80r_block`: indices 0..28, `set_im(block_data[28])`, indices 29..36 -/
 def szxZ80r (fx : Fix) (b size : Nat) : M Unit := do
-  if fx .szxZ80rShort && decide (size < 37) then failM .invalidSzx
+  guardM (fx .szxZ80rShort && decide (size < 37)) .invalidSzx
   check fx .szxZ80rShort (decide (size < 29)) .invalidSzx
   let a ← getAsset
   check fx .szxZ80rIm (decide (3 ≤ a.u8 (b + 28))) .invalidSzx
@@ -167,9 +172,8 @@ def szxAy (fx : Fix) (e : SzxEnv) (ay : Bool) (b size : Nat) : M Bool := do
   let flag128 := (a.u8 b / 2) % 2 = 1
   -- for 16K/48K files the chunk switches the AY on or off
   let ay' := if e.mid < 2 then (if flag128 && !ay then true else if !flag128 && ay then false else ay) else ay
-  if ay' then
-    -- block_data[1], &block_data[2..], regs[..16]
-    check fx .szxAyShort (decide (size < 18)) .invalidSzx
+  -- only with the AY on: block_data[1], &block_data[2..], regs[..16]
+  check fx .szxAyShort (ay' && decide (size < 18)) .invalidSzx
   pure ay'
 
 def szxKeyb (fx : Fix) (size : Nat) : M Unit :=
@@ -217,7 +221,7 @@ def szxWalk (fx : Fix) (e : SzxEnv) (fileLen : Nat) : Nat → Nat → Bool → M
       let cursor := cursor + 8
       let _ ← seekM (.start cursor)
       -- repaired code: the chunk cannot be longer than what is left of the file
-      if fx .szxAlloc && decide (fileLen - cursor < size) then failM .invalidSzx
+      guardM (fx .szxAlloc && decide (fileLen - cursor < size)) .invalidSzx
       alloc size
       match ← tryReadExact size with
       | .error _ => failM .invalidSzx
@@ -241,9 +245,9 @@ def szxLoad (fx : Fix) (r : Recv) (inflate : Inflate) : M Unit := do
   let _ ← seekM (.start 0)
   let h ← readExactM 8
   let a ← getAsset
-  if a.window h 4 ≠ [0x5A, 0x58, 0x53, 0x54] then failM .invalidSzx
+  guardM (decide (a.window h 4 ≠ [0x5A, 0x58, 0x53, 0x54])) .invalidSzx
   let mid := a.u8 (h + 6)
-  if 2 < mid then failM .machineNotSupported
+  guardM (decide (2 < mid)) .machineNotSupported
   let _ ← seekM (.start 8)
   szxWalk fx { r := r, mid := mid, inflate := inflate } fileLen (a.len + 1) 8 r.ay
   tick              -- refresh_memory_dependent_devices
@@ -254,7 +258,7 @@ def szxLoad (fx : Fix) (r : Recv) (inflate : Inflate) : M Unit := do
 `MachineNotSupported` arm is dead. -/
 def scrLoad : M Unit := do
   let size ← seekM (.fromEnd 0)
-  if size ≠ 6912 then failM .invalidScr
+  guardM (decide (size ≠ 6912)) .invalidScr
   let _ ← seekM (.start 0)
   tick 3            -- code generator: JP 0x8000 at 0x8000
   let _ ← readExactM 6912
